@@ -6,6 +6,8 @@ import (
 	"sync"
 
 	"github.com/btcsuite/btcwallet/waddrmgr"
+
+	"verif/harness/ev"
 )
 
 // Job is one execution: a world of a seed, a focus scope, a base prefix that
@@ -56,6 +58,10 @@ func RunJobs(gen func(emit func(Job)), exec func(worker int, j Job), stop func()
 	if nw > 16 {
 		nw = 16
 	}
+	if ev.IsWorker() {
+		nw = 1 // a shard worker process is single threaded
+	}
+	jobIdx := 0
 	ch := make(chan Job, 64)
 	var wg sync.WaitGroup
 	var mu sync.Mutex
@@ -78,6 +84,10 @@ func RunJobs(gen func(emit func(Job)), exec func(worker int, j Job), stop func()
 		}
 		if stop != nil && stop() {
 			complete = false
+			return
+		}
+		jobIdx++
+		if !ev.Mine(jobIdx) {
 			return
 		}
 		ch <- j
